@@ -168,6 +168,8 @@ class Func:
         self.mod, self.node, self.parent, self.cls = mod, node, parent, cls
         self.qual = (parent.qual + '.' if parent else (cls.name + '.' if cls else '')) + node.name
         self.summary, self.ret = {}, None
+        self.actuals = {}           # parameter name -> join of the argument values at the call sites seen so far
+        self.open_calls = False     # True once the function is used in a way whose arguments the analysis does not follow (passed as a value, *args, ...)
         self.nested = {}
         self.dirty = set()          # names of this scope that a nested function rebinds or fills
         self.nonlocals = set()
@@ -286,6 +288,8 @@ class Analysis:
         for i, p in enumerate(params):
             if i == 0 and f.cls is not None and not any(isinstance(d, ast.Name) and d.id == 'staticmethod' for d in f.node.decorator_list):
                 v = V(OBJ if f.cls is self.w.tree_cls else FRESH, NO, cls=('instance', f.cls))
+            elif f is not root and not f.open_calls and p in f.actuals and not f.is_property:
+                v = f.actuals[p]          # every call site of this function is followed: the parameter is what the callers pass
             elif p == 'token':
                 v = V(OBJ, YES)
             elif p == 'tokens':
@@ -299,6 +303,29 @@ class Analysis:
             env[p] = v
             self.bind_summary(f, p, v)
         self.block(f.node.body, env, f, frozenset())
+
+    def bind_call(self, g, n, args, skip_self):
+        """record the argument values of the call `n` for the parameters of g (context-insensitive join over all call sites)"""
+        a = g.node.args
+        pos = [x.arg for x in a.posonlyargs + a.args]
+        if skip_self:
+            pos = pos[1:]
+        if a.vararg or a.kwarg or any(isinstance(x, ast.Starred) for x in n.args) or any(k.arg is None for k in n.keywords) or len(n.args) > len(pos):
+            if not g.open_calls:
+                g.open_calls, self.changed = True, True
+            return
+        names = pos[:len(n.args)] + [k.arg for k in n.keywords]
+        known = set(pos) | {x.arg for x in a.kwonlyargs}
+        if not set(names) <= known or len(set(names)) != len(names):
+            if not g.open_calls:
+                g.open_calls, self.changed = True, True
+            return
+        for p, v in zip(names, args):
+            old = g.actuals.get(p)
+            new = cap(join(old, v))
+            if old is None or old.key() != new.key():
+                g.actuals[p] = new
+                self.changed = True
 
     def bind_summary(self, f, name, v):
         old = f.summary.get(name)
@@ -858,6 +885,7 @@ class Analysis:
                 return V()
             target = self.member(r, a) if not (r.tok == YES) else None
             if target is not None and not target.is_property:
+                self.bind_call(target, n, args, skip_self=target.cls is not None)
                 self.todo.append(target)
                 v = target.ret or V()
                 return v
@@ -870,6 +898,7 @@ class Analysis:
             c = self.lookup(name, env, f)
             if c.funcs:
                 for g in c.funcs:
+                    self.bind_call(g, n, args, skip_self=False)
                     self.todo.append(g)
                 return joins([g.ret or V() for g in c.funcs])
             if c.cls and c.cls[0] == 'class':
@@ -891,6 +920,8 @@ class Analysis:
             return V()
         r = E(fn)
         for g in r.funcs:
+            if not g.open_calls:
+                g.open_calls, self.changed = True, True      # called through an expression: arguments not followed
             self.todo.append(g)
         if r.funcs:
             return joins([g.ret or V() for g in r.funcs])
@@ -918,6 +949,8 @@ class Analysis:
         if name == 'map':
             fv = a0
             for g in fv.funcs:
+                if not g.open_calls:
+                    g.open_calls, self.changed = True, True      # map(f, ...): arguments not followed
                 self.todo.append(g)
             rv = joins([g.ret or V() for g in fv.funcs]) if fv.funcs else V(joins(args[1:]).own if len(args) > 1 else FRESH, MAYBE)
             return V(SHALLOW if rv.own != FRESH else FRESH, NO, elem=rv)
@@ -1095,24 +1128,32 @@ def node_scope(f, target, recv):
 def cli_formats(repo):
     """{'en': [...], 'ja': [...]} - the choices of --format per language sub-parser of depccg/argparse.py"""
     m = Module(repo, 'depccg/argparse.py', 'depccg.argparse')
-    fn = m.funcs.get('parse_args')
-    if fn is None:
+    if m.funcs.get('parse_args') is None:
         raise Fail('argparse.py: no parse_args')
-    parsers, out = {}, {}
-    for n in ast.walk(fn):
-        if (isinstance(n, ast.Assign) and len(n.targets) == 1 and isinstance(n.targets[0], ast.Name) and isinstance(n.value, ast.Call)
-                and isinstance(n.value.func, ast.Attribute) and n.value.func.attr == 'add_parser' and n.value.args and cstr(n.value.args[0])):
-            parsers[n.targets[0].id] = cstr(n.value.args[0])
-    for n in ast.walk(fn):
-        if (isinstance(n, ast.Call) and isinstance(n.func, ast.Attribute) and n.func.attr == 'add_argument' and isinstance(n.func.value, ast.Name)
-                and any(cstr(a) == '--format' for a in n.args)):
-            lang = parsers.get(n.func.value.id)
-            ch = [k.value for k in n.keywords if k.arg == 'choices']
-            if lang is None or len(ch) != 1 or not isinstance(ch[0], (ast.List, ast.Tuple)) or not all(cstr(e) is not None for e in ch[0].elts):
-                raise Fail('argparse.py: --format without a literal choices list on a language sub-parser')
-            if lang in out:
-                raise Fail(f'argparse.py: two --format options for {lang}')
-            out[lang] = [cstr(e) for e in ch[0].elts]
+    out = {}
+    # the sub-parsers may be set up in parse_args itself or in helper functions it calls: every function of the module is scanned, a
+    # `P = <...>.add_parser('<lang>')` and the `P.add_argument('--format', choices=[...])` that follows must be in the same function
+    for fn in [n for n in ast.walk(m.tree) if isinstance(n, ast.FunctionDef)]:
+        parsers = {}
+        own = [n for n in ast.walk(fn)]
+        for n in own:
+            if (isinstance(n, ast.Assign) and len(n.targets) == 1 and isinstance(n.targets[0], ast.Name) and isinstance(n.value, ast.Call)
+                    and isinstance(n.value.func, ast.Attribute) and n.value.func.attr == 'add_parser' and n.value.args and cstr(n.value.args[0])):
+                parsers[n.targets[0].id] = cstr(n.value.args[0])
+        for n in own:
+            if (isinstance(n, ast.Call) and isinstance(n.func, ast.Attribute) and n.func.attr == 'add_argument' and isinstance(n.func.value, ast.Name)
+                    and any(cstr(a) == '--format' for a in n.args)):
+                lang = parsers.get(n.func.value.id)
+                if lang is None:
+                    continue        # the common options of add_common_parser_arguments have no --format; anything else is caught below
+                ch = [k.value for k in n.keywords if k.arg == 'choices']
+                if len(ch) == 1 and isinstance(ch[0], ast.Name) and isinstance(m.assigns.get(ch[0].id), (ast.List, ast.Tuple)):
+                    ch = [m.assigns[ch[0].id]]
+                if len(ch) != 1 or not isinstance(ch[0], (ast.List, ast.Tuple)) or not all(cstr(e) is not None for e in ch[0].elts):
+                    raise Fail('argparse.py: --format without a literal choices list on a language sub-parser')
+                if lang in out:
+                    raise Fail(f'argparse.py: two --format options for {lang}')
+                out[lang] = [cstr(e) for e in ch[0].elts]
     if sorted(out) != ['en', 'ja']:
         raise Fail(f'argparse.py: expected --format choices for en and ja, found {sorted(out)}')
     return out
